@@ -176,4 +176,19 @@ def c05(run):
         assumptions=["Prometheus v0.40.1 is the reference", "errors are compared by presence only"])
 
 
-RECIPES = {"C02": c02, "C03": c03, "C04": c04, "C05": c05}
+def c06(run):
+    gens = [("Gen_Func", "fn", 1, 1, 4000, 60000, ["FuncLaw", "EmitFn"], 1000),
+            ("Gen_Func", "fn500", 3, 1, 1000, 20000, ["EmitFn"], 500)]
+    return query_check(
+        run, gens, RESULT,
+        rule=("TLC enumerates every presence history of m{a=x} over a 4-tick period x patterns of the second series x value domains "
+              "(negative, zero, NaN, +/-Inf) x step counts 1 (instant), 4, 12, 23 (35, 101 in the thorough tier) x lookbacks; FuncLaw "
+              "(a scalar-typed expression has exactly one value per step, scalar(v) is NaN unless v has one element, a pinned selector "
+              "denotes one vector for all steps) is model-checked on every scenario; the expression shape (40 shapes over all native "
+              "functions, clamp* with literal / per-step / sometimes-absent scalars, timestamp, scalar, vector, unary minus, pinned "
+              "parts, top-level scalars) is chosen by the seeded hash. distinct_nontrivial = structural scenarios on which PromQLRef "
+              "agreed with Prometheus."),
+        assumptions=["Prometheus v0.40.1 is the reference", "values of transcendental functions are OPAQUE in the spec and compared with the reference by the Go comparator"])
+
+
+RECIPES = {"C02": c02, "C03": c03, "C04": c04, "C05": c05, "C06": c06}
